@@ -1094,6 +1094,7 @@ def mon_c02_reconnect(spec, run):
 
 MONITORS["C02r"] = mon_c02_reconnect
 MONITORS["C04r"] = _wire("mon_c04_race")
+MONITORS["C11r"] = _wire("mon_c11_race")
 
 
 def mon_l5run(spec, run):
